@@ -234,7 +234,15 @@ def _bad_op(rng, sh, k, corrupt_fn=None):
             for _ in range(rng.randint(1, 3)):
                 ops_.append({"op": "grp_edit", "id": nm, "how": rng.choice(["add", "append", "prepend", "rm", "rm_first", "rm_last"]),
                              "item": rng.choice(pool) + rng.choice(["+", "-", ""])})
-            ops_.append({"op": "rm", "id": rng.choice(ids), "how": rng.choice(["rm", "disconnect"])})
+                if rng.random() < 0.4:
+                    # the item as the caller wrote it: a forgotten sign, an oriented line with an invalid orientation
+                    # ... an oriented line taken from the items of another group, a line of another Gfa
+                    ops_[-1]["raw"] = rng.choice(["str", "oline?", "list", "from_group", "from_group", "foreign_line"])
+                    ops_[-1]["item"] = rng.choice(ids + [sh.fresh(rng)])
+            if any(o.get("raw") == "from_group" for o in ops_) and rng.random() < 0.7:
+                # ... then the group the item object was taken from is removed
+                ops_.append({"op": "rm_other_group", "id": nm})
+            ops_.append({"op": "rm", "id": rng.choice(grp if rng.random() < 0.4 else ids), "how": rng.choice(["rm", "disconnect"])})
             return kind, ops_
     if kind == "stale_handle":
         # the caller keeps a handle to a line that is replaced afterwards (a placeholder by its definition, the
